@@ -215,3 +215,162 @@ Proof.
   destruct (last_response_coherent _ _ _ _ _ HR Hl (eq_sym Hr)) as [dest [Hin Hd]].
   exists dest. split; [exact Hin|]. intros Ha. rewrite (Hd Ha). symmetry. eapply to_treq_from; eauto.
 Qed.
+
+
+Lemma classify_repeat_read_iff s bytes ctl fn obj resp hdrs rh :
+  classify s None bytes ctl fn obj = FtRepeatRead resp hdrs rh <->
+  fn = fn_read /\ obj = ObjOk hdrs rh /\
+  exists l, s_last s = Some l /\ lr_seq l = ctl_seq ctl /\ lr_bytes l = bytes /\ resp = lr_response l.
+Proof.
+  unfold classify. split.
+  - destruct (fn =? fn_confirm) eqn:E0; [destruct (ctl_uns ctl); discriminate|].
+    destruct obj as [iin2|hdrs0 rh0]; [discriminate|].
+    destruct (s_last s) as [l|]; [|destruct (fn =? fn_read); discriminate].
+    destruct ((lr_seq l =? ctl_seq ctl) && bytes_eqb (lr_bytes l) bytes) eqn:Er;
+      [|destruct (fn =? fn_read); discriminate].
+    destruct (fn =? fn_read) eqn:E1; [|discriminate]. intros H. inversion H; subst.
+    apply andb_true_iff in Er as [Er1 Er2]. apply N.eqb_eq in Er1. apply bytes_eqb_eq in Er2.
+    apply N.eqb_eq in E1. splits; eauto 10.
+  - intros [-> [-> [l [Hl [Hs [Hb ->]]]]]]. cbn [N.eqb fn_read fn_confirm Pos.eqb].
+    rewrite Hl, Hs, N.eqb_refl. cbn [andb].
+    destruct (bytes_eqb (lr_bytes l) bytes) eqn:E; [reflexivity|].
+    exfalso. assert (X : bytes_eqb (lr_bytes l) bytes = true) by (apply bytes_eqb_eq; exact Hb). congruence.
+Qed.
+
+Lemma on_rx_sol_stay cfg s from bc bytes d se deadline r dl' o :
+  s_control s = CSolWait se deadline r ->
+  sol_wait_fragment cfg (rx_state s) se deadline from bc bytes d = (SoStay dl', o) ->
+  on_rx cfg s from bc bytes d = (upd_control (rx_state s) (CSolWait se dl' r), o).
+Proof.
+  intros Hc Hw. unfold on_rx. cbv zeta. fold (next_fid s). fold (rx_state s).
+  replace (s_control (rx_state s)) with (s_control s) by reflexivity. rewrite Hc, Hw. reflexivity.
+Qed.
+
+(* THEOREM 3b.  A READ repeated while a fragment of its response awaits confirmation is answered, in
+   the wait, with exactly one fragment: the remembered one, which is the fragment awaiting
+   confirmation and is already in the history.  The wait goes on (with a fresh deadline). *)
+Theorem repeat_read_echo_identical cfg h s from bytes d ans ctl fn obj resp hdrs rh se dl rs s' o :
+  Reach cfg h s ->
+  s_control s = CSolWait se dl rs ->
+  to_treq cfg from d = TqRequest ctl fn obj ->
+  classify s None bytes ctl fn obj = FtRepeatRead resp hdrs rh ->
+  ostep cfg s (ERx from None bytes d) ans = (s', o) ->
+  exists r post,
+    resp = Some r /\ ctl_seq (r_ctl r) = se_ecsn se mod 16 /\
+    o = OTx from (response_bytes r (s_sol_buf s)) :: post /\ forallb bg post = true /\
+    exists dest, In (OTx dest (response_bytes r (s_sol_buf s))) h /\ (o_any_master cfg = false -> dest = from).
+Proof.
+  intros HR Hc Et Ecl H.
+  destruct (sol_wait_remembers_awaited_fragment _ _ _ _ _ _ HR Hc) as [l [r [Hl [Hr [Hq [dest [Hin Hd]]]]]]].
+  pose proof Ecl as Ecl'.
+  apply classify_repeat_read_iff in Ecl' as [_ [_ [l' [Hl' [_ [_ Hresp]]]]]].
+  assert (l' = l) by congruence. subst l'. rewrite Hr in Hresp. subst resp.
+  apply reach_inv in HR.
+  unfold ostep in H.
+  assert (Hinv0 : inv cfg h (upd_answers s ans)) by (apply inv_same with (s := s); [frame_tac | exact HR]).
+  destruct (on_rx cfg (upd_answers s ans) from None bytes d) as [s1 o1] eqn:E1.
+  destruct (advance 64 cfg s1 (s_now s1 + settle_ms)) as [s2 o2] eqn:E2. inv_pair H.
+  pose proof (on_rx_pres _ _ _ _ _ _ _ _ _ E1 Hinv0) as [_ [Hp1 _]].
+  apply advance_bg in E2 as [_ S2]; [|exact Hp1].
+  rewrite (on_rx_sol_stay cfg (upd_answers s ans) from None bytes d se dl rs
+             (confirm_deadline cfg (rx_state (upd_answers s ans)))
+             [OTx from (response_bytes r (s_sol_buf s))]) in E1; [| exact Hc |].
+  - inv_pair E1. exists r, o2. splits; auto.
+    exists dest. split; [exact Hin|]. intros Ha. rewrite (Hd Ha). symmetry. eapply to_treq_from; eauto.
+  - unfold sol_wait_fragment. rewrite Et.
+    rewrite (classify_last s (rx_state (upd_answers s ans))) by reflexivity. rewrite Ecl. reflexivity.
+Qed.
+
+(* THEOREM 3c.  Every place where the session re-sends a fragment uses repeat_solicited with the
+   remembered response, or repeat_unsolicited with the response of the current unsolicited wait: in a
+   reachable state both render a fragment transmitted before. *)
+Theorem resend_is_earlier_fragment cfg h s :
+  Reach cfg h s ->
+  (forall l r from, s_last s = Some l -> lr_response l = Some r ->
+     exists b, repeat_solicited s from r = [OTx from b] /\
+               exists dest, In (OTx dest b) h /\ (o_any_master cfg = false -> dest = o_master cfg)) /\
+  (forall resp n rt dl, s_control s = CUnsolWait resp n rt dl ->
+     exists b, repeat_unsolicited cfg s resp = [OTx (o_master cfg) b] /\ In (OTx (o_master cfg) b) h).
+Proof.
+  intros HR. split.
+  - intros l r from Hl Hr. eexists. split; [reflexivity|]. eapply last_response_coherent; eauto.
+  - intros resp n rt dl Hc. apply reach_inv in HR. destruct HR as [[_ [B _]] _].
+    destruct (B _ _ _ _ Hc) as [[h1 [h2 [-> _]]] _]. eexists. split; [reflexivity|].
+    apply in_or_app. right. left. reflexivity.
+Qed.
+
+(* ---------- 4. unsolicited retries ------------------------------------------------------------------------------------------------- *)
+
+(* THEOREM 4a.  In an unsolicited confirm wait the response kept for retries, rendered over the
+   unsolicited buffer as it is now, is the fragment that opened this wait: it was transmitted to the
+   master immediately before the last IEnterUnsolWait of the history. *)
+Theorem unsol_wait_coherent cfg h s resp n rt dl :
+  Reach cfg h s -> s_control s = CUnsolWait resp n rt dl ->
+  opened_by h (o_master cfg) (response_bytes resp (s_unsol_buf s)) (ctl_seq (r_ctl resp)) /\
+  r_fn resp = fn_unsol_response.
+Proof. intros HR Hc. apply reach_inv in HR. destruct HR as [[_ [B _]] _]. exact (B _ _ _ _ Hc). Qed.
+
+(* THEOREM 4b.  When the confirm timeout of an unsolicited response fires and a retry is due (retries
+   left, no READ deferred), exactly the fragment that opened the wait is transmitted again, and the
+   wait continues with the same response over the same buffer. *)
+Lemma unsol_retry_identical_inv cfg h s resp n rt dl s1 o1 :
+  inv cfg h s -> s_control s = CUnsolWait resp n rt dl ->
+  rt <> Some 0%nat -> s_deferred s = None ->
+  fire_deadline cfg s = (s1, o1) ->
+  let Y := response_bytes resp (s_unsol_buf s) in
+  o1 = [OInfo (IUnsolTimeout (ctl_seq (r_ctl resp)) true); OTx (o_master cfg) Y] /\
+  opened_by h (o_master cfg) Y (ctl_seq (r_ctl resp)) /\
+  s_unsol_buf s1 = s_unsol_buf s /\
+  exists rt' dl', s_control s1 = CUnsolWait resp n rt' dl'.
+Proof.
+  intros Hinv Hc Hrt Hd H Y. unfold fire_deadline in H. rewrite Hc, Hd in H.
+  assert (Hcan : match rt with None => true | Some 0%nat => false | Some (S _) => true end = true).
+  { destruct rt as [[|k]|]; auto. }
+  rewrite Hcan in H. cbn [andb] in H. inv_pair H.
+  destruct Hinv as [[_ [B _]] _]. destruct (B _ _ _ _ Hc) as [B1 _].
+  splits; auto. psimpl. eauto.
+Qed.
+
+Theorem unsol_retry_identical cfg h s resp n rt dl t s1 o1 :
+  Reach cfg h s -> s_control s = CUnsolWait resp n rt dl ->
+  rt <> Some 0%nat -> s_deferred s = None ->
+  fire_deadline cfg (upd_now s t) = (s1, o1) ->
+  let Y := response_bytes resp (s_unsol_buf s) in
+  o1 = [OInfo (IUnsolTimeout (ctl_seq (r_ctl resp)) true); OTx (o_master cfg) Y] /\
+  opened_by h (o_master cfg) Y (ctl_seq (r_ctl resp)) /\
+  s_unsol_buf s1 = s_unsol_buf s /\
+  exists rt' dl', s_control s1 = CUnsolWait resp n rt' dl'.
+Proof.
+  intros HR Hc Hrt Hd H. apply reach_inv in HR.
+  apply (unsol_retry_identical_inv cfg h (upd_now s t) resp n rt dl s1 o1); try assumption.
+  all: try (apply inv_upd_now; exact HR).
+Qed.
+
+(* ---------- running a concrete history (for examples) ------------------------------------------------------------------------------- *)
+
+Fixpoint orun_st (cfg : ocfg) (s : ostate) (h : list oobs) (evs : list (oevent * list answer))
+  : ostate * list oobs :=
+  match evs with
+  | [] => (s, h)
+  | (ev, ans) :: rest => let '(s1, o) := ostep cfg s ev ans in orun_st cfg s1 (h ++ o) rest
+  end.
+
+Lemma orun_st_reach cfg evs : forall s h s' h',
+  Reach cfg h s -> orun_st cfg s h evs = (s', h') -> Reach cfg h' s'.
+Proof.
+  induction evs as [|[ev ans] rest IH]; intros s h s' h' HR H; cbn [orun_st] in H.
+  - inv_pair H. exact HR.
+  - destruct (ostep cfg s ev ans) as [s1 o] eqn:E. eapply IH; [|exact H]. eapply Reach_step; eauto.
+Qed.
+
+(* the state and history after start-up and a list of events *)
+Definition run_from_start (cfg : ocfg) (sel op iin : N) (a0 : list answer) (evs : list (oevent * list answer))
+  : ostate * list oobs :=
+  let '(s, o) := ostart cfg sel op iin a0 in orun_st cfg s o evs.
+
+Lemma run_from_start_reach cfg sel op iin a0 evs s h :
+  run_from_start cfg sel op iin a0 evs = (s, h) -> Reach cfg h s.
+Proof.
+  unfold run_from_start. destruct (ostart cfg sel op iin a0) as [s0 o0] eqn:E. intros H.
+  eapply orun_st_reach; [|exact H]. eapply Reach_start; eauto.
+Qed.
